@@ -26,13 +26,23 @@ URLENC  == MT("application", "x-www-form-urlencoded")
 NONE    == MT("", "")
 DefaultHandlers == <<JSON, MULTIPART, URLENC>>      \* media handlers a fresh application has
 
-Range(t, s, q, sfx) == [t |-> t, s |-> s, q |-> q, sfx |-> sfx]
+(* Media types are case-insensitive (RFC 9110, 8.3.1).  A range is written in some spelling cs: "lower", "upper"
+   (APPLICATION/VND.ACME+XML), "sfx" (only the structured-syntax suffix / the subtype's tail in upper case:
+   application/vnd.acme.v2+JSON) or "mixed" (Application/Vnd.Acme+Json).  t, s and sfx are what the protocol
+   reads, i.e. the lower-case form; the spelling takes part in nothing below except the named wrong design
+   "suffix_case_sensitive" (the +json / +xml fallback looking for the lower-case text only). *)
+CONSTANT WrongRender
+Spellings == {"lower", "upper", "sfx", "mixed"}
+Range(t, s, q, sfx) == [t |-> t, s |-> s, q |-> q, sfx |-> sfx, cs |-> "lower"]
+Spelled(r, cs) == [r EXCEPT !.cs = cs]
+Lowered(acc) == [acc EXCEPT !.ranges = [j \in 1..Len(acc.ranges) |-> Spelled(acc.ranges[j], "lower")]]
+SfxSeen(r) == WrongRender # "suffix_case_sensitive" \/ r.cs = "lower"
 AnyRange == Range("*", "*", 10, "")
 
 Ranges(acc) == IF acc.absent THEN <<AnyRange>> ELSE IF acc.malformed THEN <<>> ELSE acc.ranges
 HasSfx(acc, x) == IF acc.absent THEN FALSE
                   ELSE IF acc.malformed THEN acc.msfx = x
-                  ELSE \E j \in 1..Len(acc.ranges) : acc.ranges[j].sfx = x
+                  ELSE \E j \in 1..Len(acc.ranges) : acc.ranges[j].sfx = x /\ SfxSeen(acc.ranges[j])
 
 Matches(r, m) == (r.t = "*" \/ r.t = m.t) /\ (r.s = "*" \/ r.s = m.s)
 (* specificity first (type, then subtype), q last: one integer key per matching range *)
@@ -149,6 +159,8 @@ ClientPreferenceHonoured == Done /\ ~IsRedirect(err) /\ BestMatch(Cands, Ranges(
     /\ Q(out.ctype) > 0
     /\ \A j \in 1..Len(Cands) : Q(Cands[j]) <= Q(out.ctype)
     /\ Q(JSON) = Q(out.ctype) => out.ctype = JSON
+(* the spelling of the Accept header's media ranges is immaterial: same rendering as for the lower-case spelling *)
+SpellingIrrelevant == Done => out = Render(err, Lowered(acc), xmlOn, Handlers)
 NothingAcceptableNoBody == Done /\ BestMatch(Cands, Ranges(acc)) = NONE /\ ~HasSfx(acc, "json") /\ ~HasSfx(acc, "xml")
                            => out.kind = "none"
 =============================================================================
